@@ -220,6 +220,9 @@ func RunHarness(ld *Loaded, pkgPath, fnName string, cfg *Config, workers int) (*
 	if err := SetRebase(ld, cfg.Params["chunk"]); err != nil {
 		return nil, err
 	}
+	if cfg.Params["esc"] == 1 {
+		cfg.EscalateFeasibility = true
+	}
 	x := NewExplorer(cfg, fnName)
 	var wg sync.WaitGroup
 	errc := make(chan error, workers)
@@ -332,7 +335,7 @@ func (i *interpreter) runPath(fn *ssa.Function, prefix []dec) {
 		}
 	}
 	// witness sampling (translator validation by native replay)
-	if outcome == "ok" {
+	if outcome == "ok" && !e.noWitness {
 		maxW := e.cfg.MaxWitnesses
 		if maxW == 0 {
 			maxW = 8
